@@ -63,9 +63,9 @@ def call_onnx_api(func: Callable[[onnx.ModelProto], _R], model: ir.Model) -> _R:
             assert initializer.name is not None
             model.graph.initializers.pop(initializer.name)
 
-    proto = ir.serde.serialize_model(model)
-
     try:
+        # Serialize inside the try so that the model is restored even if serialization fails
+        proto = ir.serde.serialize_model(model)
         # Call the ONNX C API function
         result = func(proto)
     finally:
